@@ -44,6 +44,7 @@ type Unit struct {
 	kindCount map[string]int
 	Notes     map[string]bool // assumptions made while translating (havoc'd calls, ...)
 	Undecided []string        // reasons why parts are outside the subset
+	UndecidedGoals []string   // goal clauses (ensures) that could not be bound: only that clause is undecided
 	specDone  map[string]*compiledSpec
 	usesShift bool
 	frames    int
@@ -53,6 +54,7 @@ type Unit struct {
 	cellStatic map[string]Val
 	hyps      []hyp
 	ghostSyms []string
+	globalInvs []GlobalInv
 	strLits   map[string]string // literal constant symbol -> Go string
 	extraCands []string
 	trackCalls map[string]bool
